@@ -3,6 +3,8 @@ SOURCE_COMMITS = ["2a19720"]
 NOTES = ("All checks: ./check <id> --tier quick|thorough; setup builds the Coq development (full .vo), extracts the model to OCaml "
          "and compiles the driver. known_findings.json lists recorded defects (kind known) and repaired ones (kind fixed).")
 NOT_APPLICABLE = {}
+# built, but their fix stage is in progress (model already in the repaired state, patches not yet committed to /repo)
+PENDING = {"C08", "C09", "C13"}
 COMMON_NOTE = ("Trusted: Coq 8.16.1 kernel (+vm_compute), extraction (ExtrOcamlBasic, ExtrOcamlString), OCaml driver, the Python harness, "
                "CPython/torch as referents. Theorems are about the hand-written model; the model<->code tie is this run's differential "
                "correspondence, bounded by its generators (distribution in the evidence). ")
@@ -20,6 +22,45 @@ CHECKS = {
         "note": COMMON_NOTE + "Which elements tensor[idx] selects is torch's (trusted); Spec/C03_TorchIndex.v is my statement of torch's shape rule, "
                 "validated against torch in every run. Known findings D3, D25, D30 are listed in known_findings.json.",
         "technique": "Coq theorems (induction on index tuples; invariant linking the code's two passes to torch's adjacent-subspace rule) + differential correspondence",
+    },
+    "C08": {
+        "text": ("Proof (Coq): a lazy stack denotes the dense stack (coordinate insertion) — for ANY rank, stack dim, member count and nesting depth, "
+                 "`lazy[idx]` with any index made of ints, slices, None and one Ellipsis denotes `dense[idx]` (batch size, selected members, per-member "
+                 "sub-index, new stack dim); one advanced index (integer tensor of any rank or boolean mask) before or after the stack dim; the slice "
+                 "write plan writes in place into the selected members and replaces none; transpose (outside the recorded defect region), unsqueeze, "
+                 "insert/append and the cat(out=) member offsets; refutation theorems with witnesses for the recorded defects. "
+                 "Not proved (differential run only): an advanced index ON the stack dim or a mask across it, the other shape ops, update*/stack, "
+                 "reductions, comparison. Tie: extracted model vs implementation on layout and element maps (integer-coded leaves) + dense-twin oracle "
+                 "(`lazy.op(args)` materialised vs `torch.stack(members).op(args)`, member contents and member identity after writes)."),
+        "note": COMMON_NOTE + "Member-level torch semantics are trusted (C02/C03). Known findings are listed in findings.d/C08.json.",
+        "technique": "Coq refinement proof of the index translation against a coordinate-insertion spec + extracted-model/implementation differential + dense-twin oracle",
+    },
+    "C09": {
+        "text": ("Proof (Coq): pointwise operations pair entries by key — for ANY two tensordicts with the same key set in any insertion or nesting order "
+                 "the binary, in-place, comparison (any depth) and (repaired) ternary families compute result[k] from (self[k], other[k]); different key "
+                 "sets raise or follow the documented default (union / intersection); every operator spelling puts self on the correct side; the "
+                 "tensor handed to torch for an entry of shape batch++features reads a broadcast operand at the batch coordinates only (left "
+                 "broadcasting); reductions: batch size, names and per-entry dims equal torch's reduction of a tensor of the batch shape for every "
+                 "dim / tuple / keepdim, out-of-range dims raise, every reduced entry starts with the result batch size. Refutation theorems for the "
+                 "recorded defects. Not proved (differential run only): lazy stacks, unary ops, where, all/any/norm/softmax/logsumexp, reduce=True. "
+                 "Tie: the extracted model's pairing / broadcast / reduction plans are evaluated with torch and compared with the implementation; "
+                 "independent oracle: torch applied to (self[k], other[k]) for every method found by reflection, distinct primes per key."),
+        "note": COMMON_NOTE + "_foreach_* kernels and per-tensor torch ops trusted. Raises on non-core operand combinations are tolerated by the oracle "
+                "and pinned only by the model. Known findings in findings.d/C09.json.",
+        "technique": "Coq theorems over a Gallina transcription of the alignment / broadcast / reduction code + plan-level correspondence + reflection oracle",
+    },
+    "C13": {
+        "text": ("Proof (Coq) in a faithful executable model of from_module / _to_module / __enter__ / __exit__ / _reverse_to_module / "
+                 "TensorDictParams._reset_params, for ALL module DAGs (shared submodules, tied tensors, custom __setattr__ modules) and ALL parameter "
+                 "tensordicts: from_module captures exactly named_parameters U named_buffers with the same objects; a plain to_module followed by the "
+                 "returned swap, and any nesting of with-blocks, returns every slot of every module to the same object; a plain swap writes no tensor "
+                 "content and touches no unvisited module; restoration on every exceptional exit (any program, injection point, exception class); "
+                 "TensorDictParams registration equals its leaves after any update sequence issued on it. Refutation theorems for recorded defects. "
+                 "Not proved (model + run only): use_state_dict, inplace=True, swap_dest, hand-written swap-back. Tie: trace-by-trace correspondence "
+                 "plus an oracle on the real code: identities and values in named_parameters/named_buffers before and after every block with an "
+                 "exception injected at every point; output inside the block vs torch.func.functional_call, also under vmap."),
+        "note": COMMON_NOTE + "Module forward, functorch and acyclicity of the module graph are assumed. Known findings in findings.d/C13.json.",
+        "technique": "Coq invariant proofs over a module-heap model + extracted-model differential run + identity oracle with fault injection",
     },
     "C17": {
         "text": ("Proof (Coq): for every invertible operation the inverse function's re-parsing of the recorded (args, kwargs) yields the same "
